@@ -28,30 +28,47 @@ Record rmsg := mkRMsg {
   rm_close : bool; rm_compression : option bytes; rm_upgrade : bool; rm_chunked : bool }.
 
 (* ---------------- line endings ---------------- *)
-(* data.find(b"\n"): (bytes before the first LF, bytes after it) *)
-Definition find_lf (s : bytes) : option (bytes * bytes) := split_first 10 s.
-
-Fixpoint lstrip_cr (s : bytes) : bytes :=
+(* split at the first occurrence of a byte: (before, after).  Linear (BytesX.split_first reverses its
+   accumulator with the quadratic List.rev; lines here are up to 8 KiB) *)
+Fixpoint split_byte (sep : N) (s : bytes) : option (bytes * bytes) :=
   match s with
-  | c :: s' => if c =? 13 then lstrip_cr s' else s
-  | [] => []
+  | [] => None
+  | c :: s' => if c =? sep then Some ([], s')
+               else match split_byte sep s' with
+                    | Some (l, r) => Some (c :: l, r)
+                    | None => None
+                    end
   end.
+(* data.find(b"\n"): (bytes before the first LF, bytes after it) *)
+Definition find_lf (s : bytes) : option (bytes * bytes) := split_byte 10 s.
+
 (* line.rstrip(b"\r"): ALL trailing CRs *)
-Definition rstrip_cr (s : bytes) : bytes := rev (lstrip_cr (rev s)).
+Definition rstrip_cr (s : bytes) : bytes := rstrip_by (fun c => c =? 13) s.
 
 (* bytes.strip() without argument: ASCII whitespace *)
 Definition is_bws (c : N) : bool := ((9 <=? c) && (c <=? 13)) || (c =? 32).
-Fixpoint lstrip_bws (s : bytes) : bytes :=
+Definition strip_bws (s : bytes) : bytes := strip_by is_bws s.
+
+(* bytes.strip(b" \t") / lstrip *)
+Definition lstrip_ows_l (s : bytes) : bytes := lstrip_by is_ows s.
+Definition strip_ows_l (s : bytes) : bytes := strip_by is_ows s.
+
+(* s.rsplit(sep, 1)[-1]: the part after the last occurrence of sep (all of s if there is none) *)
+Fixpoint after_last_aux (sep : N) (s : bytes) : option bytes :=
   match s with
-  | c :: s' => if is_bws c then lstrip_bws s' else s
-  | [] => []
+  | [] => None
+  | c :: s' => match after_last_aux sep s' with
+               | Some t => Some t
+               | None => if c =? sep then Some s' else None
+               end
   end.
-Definition strip_bws (s : bytes) : bytes := rev (lstrip_bws (rev (lstrip_bws s))).
+Definition after_last (sep : N) (s : bytes) : bytes :=
+  match after_last_aux sep s with Some t => t | None => s end.
 
 (* ---------------- HeadersParser.parse_headers (lax) ---------------- *)
 (* field line -> (name, value with leading OWS removed) *)
 Definition parse_field_name (line : bytes) : rres (bytes * bytes) :=
-  match split_first 58 line with
+  match split_byte 58 line with
   | None => QErr EInvalidHeader
   | Some (bname, bvalue) =>
     match bname with
@@ -59,7 +76,7 @@ Definition parse_field_name (line : bytes) : rres (bytes * bytes) :=
     | f :: _ =>
       if is_ows f || is_ows (last bname 0) then QErr EInvalidHeader
       else if negb (forallb tchar bname) then QErr EInvalidHeader
-      else QOk (bname, lstrip_ows bvalue)
+      else QOk (bname, lstrip_ows_l bvalue)
     end
   end.
 
@@ -68,7 +85,7 @@ Definition parse_field_name (line : bytes) : rres (bytes * bytes) :=
 Record cur := mkCur { cu_name : bytes; cu_value : bytes; cu_len : N; cu_cont : bool }.
 
 Definition finish_field (c : cur) : rres (bytes * bytes) :=
-  let v := strip_ows (cu_value c) in
+  let v := strip_ows_l (cu_value c) in
   if existsb lax_value_forbidden v then QErr EInvalidHeader else QOk (cu_name c, v).
 
 Definition starts_ows (l : bytes) : bool := match l with c :: _ => is_ows c | [] => false end.
@@ -122,7 +139,7 @@ Definition parse_headers_lax (mf : N) (lines : list bytes) : rres (list (bytes *
 (* HttpResponseParser._is_chunked_te: te.rsplit(",", 1)[-1].strip(" \t").lower() == "chunked" on the
    DECODED value: no isascii() test, so KELVIN SIGN lower-cases into it *)
 Definition is_chunked_te_resp (te : bytes) : bool :=
-  list_eqb (map lowerU (decode_se (strip_ows (last (split_all 44 te) [])))) t_chunked.
+  list_eqb (map lowerU (decode_se (strip_ows_l (after_last 44 te)))) t_chunked.
 
 (* HttpParser.parse_headers after the field list is known (response flavour) *)
 Definition derive_resp (hs : list (bytes * bytes)) : rres hinfo :=
@@ -245,7 +262,7 @@ Fixpoint rchunked_loop (fuel : nat) (lim : limits) (mt : N) (c : rcstate) (tl : 
         | Some (raw, rest) =>
           (* pos > max_line_size: the raw line, its CR included *)
           if max_line lim <? lenN raw then QFail ELineTooLong evs else
-          let size_b := strip_bws (match split_first 59 raw with Some (sz, _) => sz | None => raw end) in
+          let size_b := strip_bws (match split_byte 59 raw with Some (sz, _) => sz | None => raw end) in
           if negb (nonempty size_b && forallb hex_digit size_b) then QFail ETransferEncoding evs
           else let size := parse_hex size_b in
                if size =? 0 then rchunked_loop f lim mt RTrail0 tl rest evs
